@@ -1,5 +1,7 @@
 import NurbsVerif.Lemmas.EvalSpec
 import NurbsVerif.Lemmas.Grid
+import NurbsVerif.Lemmas.AssemblePoint
+import NurbsVerif.Lemmas.AssembleWF
 
 /-!
 # C01  Evaluated points equal the B-spline / NURBS definition
@@ -146,5 +148,215 @@ theorem curve_ders0_eq_single (p : ℕ) (U : ℕ → K) (P : List (List K)) (u :
 /-- non-vacuity: a quadratic Bézier segment in the plane at u = 1/2 -/
 example : NetOk 2 ([[0,0],[1,2],[2,0]] : List (List ℚ)) := by
   intro pt hpt; simp at hpt; rcases hpt with h | h | h <;> simp [h]
+
+/-! ## End-to-end statements: `evaluate_single` (span search + span evaluation) on the whole domain
+
+`curvePoint` / `surfacePoint` / `volumePoint` are what `evaluate_single` runs: the linear span search
+followed by the evaluation on the span found.  Two forms:
+
+* parameters in the half-open domain `[U_p, U_n)` (per direction): the Cox–de Boor functions `cdb`
+  themselves;
+* EVERY parameter of the closed domain `[U_p, U_n]`: the Cox–de Boor recursion of the span found,
+  `cdbSpan U k` (degree-0 functions = indicator of span `k`, same recurrence, same 0/0 := 0).  By
+  `span_basis_eq_cox_de_boor` it is `cdb` whenever the parameter lies in the half-open span `k`
+  (always the case for `u < U_n`, `domain_span_found`); at the right end `u = U_n` the span found is
+  the last one, `n-1`, which is non-empty and has `u` as its right end, i.e. the value there is the
+  one obtained with the basis functions of the last non-empty span (left-limit convention: the
+  functions `u ↦ cdbSpan U (n-1) p i u` are the polynomials that coincide with `cdb U p i` on
+  `[U_{n-1}, U_n)`).  For a clamped end `cdb U p i U_n = 0` for all `i < n`, so this convention – not
+  the right-continuous recursion – is what makes the curve end at its last control point. -/
+
+/-- **What the search finds on the closed domain**: for a well-formed knot vector and `u ∈ [U_p, U_n]`
+    the span `k` found is a legal index, non-empty, contains `u` (closed on the right); for `u < U_n`
+    it is the half-open knot interval of `u`; for `u = U_n` it is the last span `n - 1`. -/
+theorem domain_span_found (p : ℕ) (Ul : List K) (n : ℕ) (hU : KvWF p Ul n) (u : K)
+    (h1 : fnOf Ul p ≤ u) (h2 : u ≤ fnOf Ul n) :
+    p ≤ findSpanLinear p (fnOf Ul) n u ∧ findSpanLinear p (fnOf Ul) n u < n ∧
+    fnOf Ul (findSpanLinear p (fnOf Ul) n u) ≤ u ∧ u ≤ fnOf Ul (findSpanLinear p (fnOf Ul) n u + 1) ∧
+    fnOf Ul (findSpanLinear p (fnOf Ul) n u) < fnOf Ul (findSpanLinear p (fnOf Ul) n u + 1) ∧
+    (u < fnOf Ul n → u < fnOf Ul (findSpanLinear p (fnOf Ul) n u + 1)) ∧
+    (u = fnOf Ul n → findSpanLinear p (fnOf Ul) n u = n - 1) := by
+  obtain ⟨hs, a1, a2⟩ := findSpanLinear_dom hU.knotsOk u h1 h2
+  refine ⟨a1, a2, hs.lo, hs.hi, hs.nonempty, fun h => (findSpanLinear_halfopen hU.mono hU.pn u h1 h).2.1, ?_⟩
+  intro h; rw [h]; exact findSpanLinear_right_end hU.mono hU.pn
+
+/-- **The recursion of a span is the Cox–de Boor recursion on that span**: for `u` in the half-open
+    span `κ` of a non-decreasing knot function, all degrees, all indices. -/
+theorem span_basis_eq_cox_de_boor (U : ℕ → K) (κ : ℕ) (u : K) (hm : Monotone U) (h1 : U κ ≤ u) (h2 : u < U (κ+1))
+    (p i : ℕ) : cdbSpan U κ p i u = cdb U p i u :=
+  cdbSpan_eq_cdb U κ u hm h1 h2 p i
+
+/-- **The recursion of a span is what A2.2 computes on that span** (`helpers.basis_function`), for
+    EVERY parameter (in particular the right end of the span), and it vanishes identically outside
+    the window `κ-p … κ` (local support). -/
+theorem span_basis_eq_basis_function (U : ℕ → K) (κ : ℕ) (u : K) (p : ℕ) (hp : p ≤ κ) (i : ℕ) :
+    cdbSpan U κ p i u = if κ ≤ i + p ∧ i ≤ κ then (basisFuns p U κ u).getD (i + p - κ) 0 else 0 :=
+  cdbSpan_eq_basisFuns U κ u p hp i
+
+/-- **Curves, half-open domain**: `evaluate_single(u)` is the sum over ALL control points of
+    Cox–de Boor basis function times control point, every coordinate. -/
+theorem curve_eval_eq_definition (p d : ℕ) (Ul : List K) (P : List (List K)) (hC : CurveWF p d Ul P) (u : K)
+    (h1 : fnOf Ul p ≤ u) (h2 : u < fnOf Ul P.length) (j : ℕ) :
+    (curvePoint p (fnOf Ul) P u).getD j 0 = ∑ i ∈ range P.length, cdb (fnOf Ul) p i u * (ptsGet P i).getD j 0 :=
+  curvePoint_eq_cdb p (fnOf Ul) P u d j hC.mono hC.pn hC.net h1 h2
+
+/-- **Curves, closed domain** (every parameter): the same sum with the Cox–de Boor recursion of the span
+    the search finds. -/
+theorem curve_eval_eq_definition_closed (p d : ℕ) (Ul : List K) (P : List (List K)) (hC : CurveWF p d Ul P) (u : K) (j : ℕ) :
+    (curvePoint p (fnOf Ul) P u).getD j 0
+      = ∑ i ∈ range P.length, cdbSpan (fnOf Ul) (findSpanLinear p (fnOf Ul) P.length u) p i u * (ptsGet P i).getD j 0 :=
+  curvePoint_eq_cdbSpan p (fnOf Ul) P u d j hC.pn hC.net
+
+/-- **Curves, right end of the domain**: `evaluate_single(U_n)` is the sum with the basis functions of
+    the last span `n - 1` (non-empty by well-formedness) evaluated at its right end. -/
+theorem curve_eval_at_domain_end (p d : ℕ) (Ul : List K) (P : List (List K)) (hC : CurveWF p d Ul P) (j : ℕ) :
+    (curvePoint p (fnOf Ul) P (fnOf Ul P.length)).getD j 0
+      = ∑ i ∈ range P.length, cdbSpan (fnOf Ul) (P.length - 1) p i (fnOf Ul P.length) * (ptsGet P i).getD j 0 := by
+  have h := curvePoint_eq_cdbSpan p (fnOf Ul) P (fnOf Ul P.length) d j hC.pn hC.net
+  rw [findSpanLinear_right_end hC.mono hC.pn] at h
+  exact h
+
+/-- **Surfaces, half-open domain**: tensor-product Cox–de Boor sum over the whole net. -/
+theorem surface_eval_eq_definition (d : ℕ) (S : Shape K) (hS : SurfWF d S) (u v : K)
+    (hu1 : fnOf (S.kv 0) (S.deg 0) ≤ u) (hu2 : u < fnOf (S.kv 0) (S.size 0))
+    (hv1 : fnOf (S.kv 1) (S.deg 1) ≤ v) (hv2 : v < fnOf (S.kv 1) (S.size 1)) (j : ℕ) :
+    (surfEval S u v).getD j 0
+      = ∑ a ∈ range (S.size 0), ∑ b ∈ range (S.size 1),
+          cdb (fnOf (S.kv 0)) (S.deg 0) a u * cdb (fnOf (S.kv 1)) (S.deg 1) b v * (ptsGet S.net (b + S.size 1 * a)).getD j 0 :=
+  surfacePoint_eq_cdb _ _ _ _ _ _ S.net u v d j hS.dir0.mono hS.dir1.mono hS.dir0.pn hS.dir1.pn hS.netlen hS.net
+    hu1 hu2 hv1 hv2
+
+/-- **Surfaces, closed domain** (every parameter pair): recursion of the spans found, per direction. -/
+theorem surface_eval_eq_definition_closed (d : ℕ) (S : Shape K) (hS : SurfWF d S) (u v : K) (j : ℕ) :
+    (surfEval S u v).getD j 0
+      = ∑ a ∈ range (S.size 0), ∑ b ∈ range (S.size 1),
+          cdbSpan (fnOf (S.kv 0)) (findSpanLinear (S.deg 0) (fnOf (S.kv 0)) (S.size 0) u) (S.deg 0) a u *
+            cdbSpan (fnOf (S.kv 1)) (findSpanLinear (S.deg 1) (fnOf (S.kv 1)) (S.size 1) v) (S.deg 1) b v *
+              (ptsGet S.net (b + S.size 1 * a)).getD j 0 :=
+  surfacePoint_eq_cdbSpan _ _ _ _ _ _ S.net u v d j hS.dir0.pn hS.dir1.pn hS.netlen hS.net
+
+/-- **Volumes, half-open domain**: triple tensor-product Cox–de Boor sum, layout `v + sv·(u + su·w)`. -/
+theorem volume_eval_eq_definition (pu pv pw d : ℕ) (Uu Uv Uw : List K) (su sv sw : ℕ) (P : List (List K))
+    (hUu : KvWF pu Uu su) (hUv : KvWF pv Uv sv) (hUw : KvWF pw Uw sw) (hlen : P.length = su * sv * sw) (hP : NetOk d P)
+    (u v w : K) (hu1 : fnOf Uu pu ≤ u) (hu2 : u < fnOf Uu su) (hv1 : fnOf Uv pv ≤ v) (hv2 : v < fnOf Uv sv)
+    (hw1 : fnOf Uw pw ≤ w) (hw2 : w < fnOf Uw sw) (j : ℕ) :
+    (volumePoint pu pv pw (fnOf Uu) (fnOf Uv) (fnOf Uw) su sv sw P u v w).getD j 0
+      = ∑ a ∈ range su, ∑ b ∈ range sv, ∑ c ∈ range sw,
+          cdb (fnOf Uu) pu a u * cdb (fnOf Uv) pv b v * cdb (fnOf Uw) pw c w * (ptsGet P (b + sv * (a + su * c))).getD j 0 :=
+  volumePoint_eq_cdb pu pv pw _ _ _ su sv sw P u v w d j hUu.mono hUv.mono hUw.mono hUu.pn hUv.pn hUw.pn hlen hP
+    hu1 hu2 hv1 hv2 hw1 hw2
+
+/-- **Volumes, closed domain** (every parameter triple). -/
+theorem volume_eval_eq_definition_closed (pu pv pw d : ℕ) (Uu Uv Uw : List K) (su sv sw : ℕ) (P : List (List K))
+    (hUu : KvWF pu Uu su) (hUv : KvWF pv Uv sv) (hUw : KvWF pw Uw sw) (hlen : P.length = su * sv * sw) (hP : NetOk d P)
+    (u v w : K) (j : ℕ) :
+    (volumePoint pu pv pw (fnOf Uu) (fnOf Uv) (fnOf Uw) su sv sw P u v w).getD j 0
+      = ∑ a ∈ range su, ∑ b ∈ range sv, ∑ c ∈ range sw,
+          cdbSpan (fnOf Uu) (findSpanLinear pu (fnOf Uu) su u) pu a u * cdbSpan (fnOf Uv) (findSpanLinear pv (fnOf Uv) sv v) pv b v *
+            cdbSpan (fnOf Uw) (findSpanLinear pw (fnOf Uw) sw w) pw c w * (ptsGet P (b + sv * (a + su * c))).getD j 0 :=
+  volumePoint_eq_cdbSpan pu pv pw _ _ _ su sv sw P u v w d j hUu.pn hUv.pn hUw.pn hlen hP
+
+/-- **Rational curves at point level, closed domain**: with positive weights the weight of the
+    evaluated homogeneous point is positive and the projected point `evaluate_single` returns is
+    (Σ N_i w_i P_i) / (Σ N_i w_i) coordinatewise (homogeneous control points `(w_i P_i, w_i)`). -/
+theorem rational_curve_eval_eq_quotient_closed (p d : ℕ) (Ul : List K) (Pw : List (List K)) (hC : CurveWF p (d+1) Ul Pw)
+    (hwt : ∀ i, i < Pw.length → 0 < (ptsGet Pw i).getD d 0) (u : K)
+    (h1 : fnOf Ul p ≤ u) (h2 : u ≤ fnOf Ul Pw.length) (j : ℕ) (hj : j < d) :
+    0 < (curvePoint p (fnOf Ul) Pw u).getD d 0 ∧
+    (project (curvePoint p (fnOf Ul) Pw u)).getD j 0
+      = (∑ i ∈ range Pw.length, cdbSpan (fnOf Ul) (findSpanLinear p (fnOf Ul) Pw.length u) p i u * (ptsGet Pw i).getD j 0)
+        / (∑ i ∈ range Pw.length, cdbSpan (fnOf Ul) (findSpanLinear p (fnOf Ul) Pw.length u) p i u * (ptsGet Pw i).getD d 0) :=
+  curvePoint_rational_eq_cdbSpan p (fnOf Ul) Pw u d j hC.knotsOk hC.net h1 h2 hwt hj
+
+/-- **Rational curves, half-open domain**: quotient of the Cox–de Boor sums. -/
+theorem rational_curve_eval_eq_quotient (p d : ℕ) (Ul : List K) (Pw : List (List K)) (hC : CurveWF p (d+1) Ul Pw) (u : K)
+    (h1 : fnOf Ul p ≤ u) (h2 : u < fnOf Ul Pw.length) (j : ℕ) (hj : j < d) :
+    (project (curvePoint p (fnOf Ul) Pw u)).getD j 0
+      = (∑ i ∈ range Pw.length, cdb (fnOf Ul) p i u * (ptsGet Pw i).getD j 0)
+        / (∑ i ∈ range Pw.length, cdb (fnOf Ul) p i u * (ptsGet Pw i).getD d 0) :=
+  curvePoint_rational_eq_cdb p (fnOf Ul) Pw u d j hC.mono hC.pn hC.net h1 h2 hj
+
+/-- **Rational surfaces, closed domain**: positive weight, projected point = quotient of the sums. -/
+theorem rational_surface_eval_eq_quotient_closed (d : ℕ) (S : Shape K) (hS : SurfWF (d+1) S)
+    (hwt : ∀ i, i < S.net.length → 0 < (ptsGet S.net i).getD d 0) (u v : K)
+    (hu1 : fnOf (S.kv 0) (S.deg 0) ≤ u) (hu2 : u ≤ fnOf (S.kv 0) (S.size 0))
+    (hv1 : fnOf (S.kv 1) (S.deg 1) ≤ v) (hv2 : v ≤ fnOf (S.kv 1) (S.size 1)) (j : ℕ) (hj : j < d) :
+    0 < (surfEval S u v).getD d 0 ∧
+    (project (surfEval S u v)).getD j 0
+      = (∑ a ∈ range (S.size 0), ∑ b ∈ range (S.size 1),
+          cdbSpan (fnOf (S.kv 0)) (findSpanLinear (S.deg 0) (fnOf (S.kv 0)) (S.size 0) u) (S.deg 0) a u *
+            cdbSpan (fnOf (S.kv 1)) (findSpanLinear (S.deg 1) (fnOf (S.kv 1)) (S.size 1) v) (S.deg 1) b v *
+              (ptsGet S.net (b + S.size 1 * a)).getD j 0)
+        / (∑ a ∈ range (S.size 0), ∑ b ∈ range (S.size 1),
+          cdbSpan (fnOf (S.kv 0)) (findSpanLinear (S.deg 0) (fnOf (S.kv 0)) (S.size 0) u) (S.deg 0) a u *
+            cdbSpan (fnOf (S.kv 1)) (findSpanLinear (S.deg 1) (fnOf (S.kv 1)) (S.size 1) v) (S.deg 1) b v *
+              (ptsGet S.net (b + S.size 1 * a)).getD d 0) :=
+  surfacePoint_rational_eq_cdbSpan _ _ _ _ _ _ S.net u v d j hS.dir0.knotsOk hS.dir1.knotsOk hS.netlen hS.net
+    hu1 hu2 hv1 hv2 hwt hj
+
+/-- **Rational surfaces, half-open domain**: quotient of the tensor-product Cox–de Boor sums. -/
+theorem rational_surface_eval_eq_quotient (d : ℕ) (S : Shape K) (hS : SurfWF (d+1) S) (u v : K)
+    (hu1 : fnOf (S.kv 0) (S.deg 0) ≤ u) (hu2 : u < fnOf (S.kv 0) (S.size 0))
+    (hv1 : fnOf (S.kv 1) (S.deg 1) ≤ v) (hv2 : v < fnOf (S.kv 1) (S.size 1)) (j : ℕ) (hj : j < d) :
+    (project (surfEval S u v)).getD j 0
+      = (∑ a ∈ range (S.size 0), ∑ b ∈ range (S.size 1),
+          cdb (fnOf (S.kv 0)) (S.deg 0) a u * cdb (fnOf (S.kv 1)) (S.deg 1) b v * (ptsGet S.net (b + S.size 1 * a)).getD j 0)
+        / (∑ a ∈ range (S.size 0), ∑ b ∈ range (S.size 1),
+          cdb (fnOf (S.kv 0)) (S.deg 0) a u * cdb (fnOf (S.kv 1)) (S.deg 1) b v * (ptsGet S.net (b + S.size 1 * a)).getD d 0) :=
+  surfacePoint_rational_eq_cdb _ _ _ _ _ _ S.net u v d j hS.dir0.mono hS.dir1.mono hS.dir0.pn hS.dir1.pn hS.netlen hS.net
+    hu1 hu2 hv1 hv2 hj
+
+/-- **Rational volumes, closed domain**: positive weight, projected point = quotient of the sums. -/
+theorem rational_volume_eval_eq_quotient_closed (pu pv pw d : ℕ) (Uu Uv Uw : List K) (su sv sw : ℕ) (Pw : List (List K))
+    (hUu : KvWF pu Uu su) (hUv : KvWF pv Uv sv) (hUw : KvWF pw Uw sw) (hlen : Pw.length = su * sv * sw)
+    (hP : NetOk (d+1) Pw) (hwt : ∀ i, i < Pw.length → 0 < (ptsGet Pw i).getD d 0)
+    (u v w : K) (hu1 : fnOf Uu pu ≤ u) (hu2 : u ≤ fnOf Uu su) (hv1 : fnOf Uv pv ≤ v) (hv2 : v ≤ fnOf Uv sv)
+    (hw1 : fnOf Uw pw ≤ w) (hw2 : w ≤ fnOf Uw sw) (j : ℕ) (hj : j < d) :
+    0 < (volumePoint pu pv pw (fnOf Uu) (fnOf Uv) (fnOf Uw) su sv sw Pw u v w).getD d 0 ∧
+    (project (volumePoint pu pv pw (fnOf Uu) (fnOf Uv) (fnOf Uw) su sv sw Pw u v w)).getD j 0
+      = (∑ a ∈ range su, ∑ b ∈ range sv, ∑ c ∈ range sw,
+          cdbSpan (fnOf Uu) (findSpanLinear pu (fnOf Uu) su u) pu a u * cdbSpan (fnOf Uv) (findSpanLinear pv (fnOf Uv) sv v) pv b v *
+            cdbSpan (fnOf Uw) (findSpanLinear pw (fnOf Uw) sw w) pw c w * (ptsGet Pw (b + sv * (a + su * c))).getD j 0)
+        / (∑ a ∈ range su, ∑ b ∈ range sv, ∑ c ∈ range sw,
+          cdbSpan (fnOf Uu) (findSpanLinear pu (fnOf Uu) su u) pu a u * cdbSpan (fnOf Uv) (findSpanLinear pv (fnOf Uv) sv v) pv b v *
+            cdbSpan (fnOf Uw) (findSpanLinear pw (fnOf Uw) sw w) pw c w * (ptsGet Pw (b + sv * (a + su * c))).getD d 0) :=
+  volumePoint_rational_eq_cdbSpan pu pv pw _ _ _ su sv sw Pw u v w d j hUu.knotsOk hUv.knotsOk hUw.knotsOk hlen hP
+    hu1 hu2 hv1 hv2 hw1 hw2 hwt hj
+
+/-- **Rational volumes, half-open domain**: quotient of the triple Cox–de Boor sums. -/
+theorem rational_volume_eval_eq_quotient (pu pv pw d : ℕ) (Uu Uv Uw : List K) (su sv sw : ℕ) (Pw : List (List K))
+    (hUu : KvWF pu Uu su) (hUv : KvWF pv Uv sv) (hUw : KvWF pw Uw sw) (hlen : Pw.length = su * sv * sw)
+    (hP : NetOk (d+1) Pw)
+    (u v w : K) (hu1 : fnOf Uu pu ≤ u) (hu2 : u < fnOf Uu su) (hv1 : fnOf Uv pv ≤ v) (hv2 : v < fnOf Uv sv)
+    (hw1 : fnOf Uw pw ≤ w) (hw2 : w < fnOf Uw sw) (j : ℕ) (hj : j < d) :
+    (project (volumePoint pu pv pw (fnOf Uu) (fnOf Uv) (fnOf Uw) su sv sw Pw u v w)).getD j 0
+      = (∑ a ∈ range su, ∑ b ∈ range sv, ∑ c ∈ range sw,
+          cdb (fnOf Uu) pu a u * cdb (fnOf Uv) pv b v * cdb (fnOf Uw) pw c w * (ptsGet Pw (b + sv * (a + su * c))).getD j 0)
+        / (∑ a ∈ range su, ∑ b ∈ range sv, ∑ c ∈ range sw,
+          cdb (fnOf Uu) pu a u * cdb (fnOf Uv) pv b v * cdb (fnOf Uw) pw c w * (ptsGet Pw (b + sv * (a + su * c))).getD d 0) :=
+  volumePoint_rational_eq_cdb pu pv pw _ _ _ su sv sw Pw u v w d j hUu.mono hUv.mono hUw.mono hUu.pn hUv.pn hUw.pn hlen hP
+    hu1 hu2 hv1 hv2 hw1 hw2 hj
+
+/-- non-vacuity: an UNCLAMPED quadratic curve (uniform knots 0..6, domain `[2, 4]`) is well formed … -/
+example : CurveWF 2 2 ([0,1,2,3,4,5,6] : List ℚ) [[0,0],[1,2],[3,1],[4,4]] where
+  mono := mono_of_pairwise _ (by decide +kernel)
+  len := by simp
+  pn := by simp
+  last := by decide +kernel
+  net := by intro pt hpt; simp at hpt; rcases hpt with h | h | h | h <;> simp [h]
+
+/-- … at the right domain end the search returns the last span and the evaluated point is the sum with
+    that span's basis functions `0, 0, 1/2, 1/2` -/
+example : findSpanLinear 2 (fnOf ([0,1,2,3,4,5,6] : List ℚ)) 4 4 = 3 ∧
+    curvePoint 2 (fnOf ([0,1,2,3,4,5,6] : List ℚ)) [[0,0],[1,2],[3,1],[4,4]] 4 = [7/2, 5/2] ∧
+    (List.range 4).map (fun i => cdbSpan (fnOf ([0,1,2,3,4,5,6] : List ℚ)) 3 2 i 4) = [0, 0, 1/2, 1/2] := by
+  decide +kernel
+
+/-- for a clamped end the right-continuous Cox–de Boor functions all vanish at `U_n`, the functions of
+    the last span do not -/
+example : (List.range 4).map (fun i => cdb (fnOf ([0,0,0,1/2,1,1,1] : List ℚ)) 2 i 1) = [0, 0, 0, 0] ∧
+    (List.range 4).map (fun i => cdbSpan (fnOf ([0,0,0,1/2,1,1,1] : List ℚ)) 3 2 i 1) = [0, 0, 0, 1] := by
+  decide +kernel
+
 
 end C01
